@@ -256,16 +256,14 @@ func c20TieViews(c *Ctx, d *c20Doc, now time.Time) (known, sib, whole, past bool
 	}
 	req := strings.SplitN(d.request(now), " ", 5) // warn d m y rest
 	c.Tie(fmt.Sprintf("warnviews %s %s %s %d %d %s", req[1], req[2], req[3], lo, hi, req[4]), line)
-	inWindow := hi-lo <= 106751 && lo >= 106753
-	c.Count(fmt.Sprintf("guards: SibDates=%s WholeDates=%s PastDates=%s window-ok=%s", bit(sib), bit(whole), bit(past), bit(inWindow)))
-	return true, sib && inWindow, whole && hi-lo <= 106751, past
+	inWindow := lo >= 276
+	c.Count(fmt.Sprintf("guards: SibDates=%s WholeDates=%s PastDates=%s lo>=276=%s", bit(sib), bit(whole), bit(past), bit(inWindow)))
+	return true, sib && inWindow, whole, past
 }
 
 // ---------------------------------------------------------------- the specification on general dates
 
 const c20Eps = 1e-9
-
-const c20KnownFarKey = "siblings-292-years-apart"
 
 func c20Near(a, b *big.Rat) bool { // float64 cannot be trusted to order them
 	d := new(big.Rat).Sub(a, b)
@@ -350,7 +348,7 @@ func c20PartKey(p c20Part) string {
 // interprets; dates of every shape. Unclear: decisions float64 may take either way, differences
 // beyond the range of time.Duration, ranges that run backwards.
 func c20ExpectedG(d *c20Doc, labels map[string]int) c20Spec {
-	s := c20Spec{Want: map[string]int{}, Unclear: map[string]bool{}, Multi: map[string]bool{}, Known: map[string]string{}}
+	s := c20Spec{Want: map[string]int{}, Unclear: map[string]bool{}, Multi: map[string]bool{}}
 	ind := map[int]*c20Indi{}
 	for _, r := range d.Recs {
 		if r.I != nil {
@@ -470,10 +468,6 @@ func c20ExpectedG(d *c20Doc, labels map[string]int) c20Spec {
 					continue
 				}
 				gs, ge := c20Abs(x.SDay-y.SDay), c20Abs(x.EDay-y.EDay)
-				if gs <= 106751 && ge > 106751 {
-					// known finding: only the difference of the last days is beyond time.Duration
-					s.Known[key] = c20KnownFarKey
-				}
 				if gs >= 2 && (gs < 274 || ge < 274) {
 					s.Want[key] = 1
 				}
@@ -812,11 +806,11 @@ func c20HasGeneral(d *c20Doc) bool {
 	return false
 }
 
-// c20FarSiblings: the boundary of the guard of siblings_sound_complete_general_partial
-// (Gedcom.C20.siblings_general_counterexample): child 1 born on 1 Jan 1600, child 2 "Bet. 10 Apr 1892
+// c20FarSiblings: the witness of the defect repaired by fixes/C20-duration-saturates.patch
+// (Gedcom.C20.siblings_292_years_regression): child 1 born on 1 Jan 1600, child 2 "Bet. 10 Apr 1892
 // and 11 Apr 1892", 106751 days later by the first day and 106752 by the last. The difference of the
-// last days is beyond time.Duration; the model says the pair is reported. Replayed on the implementation
-// by the correspondence and by the specification oracle (known finding siblings-292-years-apart).
+// last days is beyond time.Duration; before the repair the pair was reported as born too close. Kept in
+// every run: judged by the correspondence and by the specification oracle (no warning is warranted).
 func c20FarSiblings(r *Rand) *c20Doc {
 	d := &c20Doc{}
 	p1, p2 := c20Part{D: 10, M: 4, Y: 1892}, c20Part{D: 11, M: 4, Y: 1892}
